@@ -1,5 +1,84 @@
-import Driver.Proto
-/-! C07 handler (not implemented yet). -/
+import Driver.C10
+import ThunderModel.Sql.Live
+/-! C07 handler: replays a history of the live-SQL model step by step. -/
+open Lean TM.Sql.Live TM.Sql.Batch TM.Sql.Limit
+
 namespace Driver.C07
-def handle : Handler := fun _ => throw "C07: no model yet"
+
+def decChange (j : Json) : Except String Change := do
+  match ← str j "c" with
+  | "ins" => pure (.ins (← Driver.C10.decRow (← field j "r")))
+  | "del" => pure (.del (← nat j "i"))
+  | "upd" => pure (.upd (← nat j "i") (← Driver.C10.decRow (← field j "r")))
+  | c => throw s!"C07: unknown change {c}"
+
+def decLabel (j : Json) : Except String Label := do
+  match ← str j "l" with
+  | "write" => pure (.write (← nat j "t") (← listOf decChange (← field j "cs")) (← bool j "bad"))
+  | "register" => pure (.register (← nat j "q"))
+  | "read" => pure (.read (← nat j "q"))
+  | "deliver" => pure .deliver
+  | l => throw s!"C07: unknown label {l}"
+
+def decQuery (j : Json) : Except String LQ := do
+  pure { tbl := ← nat j "t", filter := ← Driver.C12.decKVs (← field j "f") }
+
+def encRows (rs : List Row) : Json := Json.arr (rs.map Driver.C10.encRow).toArray
+def encORow : Option Row → Json
+  | none => Json.null
+  | some r => Driver.C10.encRow r
+def encDelta (d : Delta) : Json := Json.mkObj [("before", encORow d.before), ("after", encORow d.after)]
+
+def encQ (q : LQ) : Json := Json.mkObj [("registered", q.registered), ("invalid", q.invalid),
+  ("rows", match q.rows with | some r => encRows r | none => Json.null)]
+
+def freshB (s : St) : Bool :=
+  s.qs.all fun q => match q.rows with
+    | some r => decide (r = alone q.filter (tableOf s q.tbl))
+    | none => true
+
+/-- what a step shows to the outside -/
+def stepInfo (cfg : Cfg) (s : St) (l : Label) (s' : St) : Json :=
+  match l with
+  | .write _ _ _ => match s'.queue.getLast? with
+    | some e => Json.mkObj [("deltas", Json.arr (e.deltas.map encDelta).toArray)]
+    | none => Json.null
+  | .deliver => match s.queue with
+    | e :: _ => Json.mkObj [("invalidated", jNats ((List.range s.qs.length).filter fun i =>
+        match s.qs[i]? with | some q => q.registered && hits cfg q e | none => false))]
+    | [] => Json.null
+  | .read k => match s'.qs[k]? with
+    | some q => Json.mkObj [("rows", match q.rows with | some r => encRows r | none => Json.null)]
+    | none => Json.null
+  | .register _ => Json.null
+
+def replay (cfg : Cfg) : St → List Label → Nat → List Json → (St × Option Nat × List Json)
+  | s, [], _, acc => (s, none, acc.reverse)
+  | s, l :: ls, i, acc =>
+    match step cfg s l with
+    | some s' => replay cfg s' ls (i + 1) (stepInfo cfg s l s' :: acc)
+    | none => (s, some i, acc.reverse)
+
+def handle : Handler := fun req => do
+  let op ← str req "op"
+  match op with
+  | "run" =>
+    let tables ← listOf (listOf Driver.C10.decRow) (← field req "tables")
+    let qs ← listOf decQuery (← field req "queries")
+    let ls ← listOf decLabel (← field req "labels")
+    let cfg : Cfg := match (str req "cfg").toOption with
+      | some "old" => old
+      | some "readFirst" => { readFirst := true }
+      | _ => repaired
+    let (s, rej, infos) := replay cfg { tables := tables, qs := qs } ls 0 []
+    pure <| Json.mkObj [
+      ("rejected", match rej with | some i => (i : Json) | none => Json.null),
+      ("steps", Json.arr infos.toArray),
+      ("queue", (s.queue.length : Json)),
+      ("queries", Json.arr (s.qs.map encQ).toArray),
+      ("tables", Json.arr (s.tables.map encRows).toArray),
+      ("quiescent", quiescent s),
+      ("fresh", freshB s)]
+  | _ => throw s!"C07: unknown op {op}"
+
 end Driver.C07
